@@ -31,7 +31,14 @@ func behaviourClass(steps []step, verdictKey string) string {
 	feat := map[string]bool{}
 	nver := 0
 	last := steps[len(steps)-1]
+	otherRemoteBranch := ""
 	for _, s := range steps {
+		if otherRemoteBranch != "" && s.str("b") == otherRemoteBranch && (s.str("a") == "commit" || s.str("a") == "committree" || s.str("a") == "merge") {
+			feat["otherremote-stale"] = true // the local branch moved on after the second remote's ref was taken
+		}
+		if s.str("a") == "otherremote" {
+			otherRemoteBranch = s.str("b")
+		}
 		switch s.str("a") {
 		case "damage":
 			feat["dmg:"+s.str("how")] = true
@@ -54,7 +61,7 @@ func behaviourClass(steps []step, verdictKey string) string {
 			if s.str("b") != "main" {
 				feat["branch"] = true
 			}
-		case "stage", "stash", "switch", "serverloses", "worktree":
+		case "stage", "stash", "switch", "serverloses", "worktree", "otherremote":
 			feat[s.str("a")] = true
 		default:
 			nver++
@@ -62,6 +69,9 @@ func behaviourClass(steps []step, verdictKey string) string {
 	}
 	if v, ok := last["deletes"].([]interface{}); ok && len(v) > 0 {
 		feat["refdel"] = true
+	}
+	for _, r := range toStrings(last["sole"]) {
+		feat["sole:"+r] = true // some object is retained for this reason alone
 	}
 	if last.str("from") == "linked" {
 		feat["from-linked"] = true
@@ -151,12 +161,66 @@ func sampleBehaviours(c *core.Ctx, file string, verdictKey string, budget int) (
 	taken := map[string]bool{}
 	if samplePriority != nil {
 		for _, k := range classes {
-			if len(out) >= budget/3 {
+			if len(out) >= budget/4 {
 				break
 			}
 			if samplePriority(k) {
 				out = append(out, byClass[k][0])
 				taken[k] = true
+			}
+		}
+	}
+	nprio, nprioTaken := 0, len(out)
+	if samplePriority != nil {
+		for _, k := range classes {
+			if samplePriority(k) {
+				nprio++
+			}
+		}
+	}
+	c.Set("priority_classes", nprio)
+	c.Set("priority_classes_replayed", nprioTaken)
+	// pair coverage: every (verdict-step flag, feature) and (feature, feature) combination that occurs
+	// in some class is replayed at least three times before classes are merely sampled
+	pairsOf := func(class string) []string {
+		parts := strings.Split(class, "|")
+		if len(parts) < 5 {
+			return nil
+		}
+		feats := strings.Split(parts[4], ",")
+		var ps []string
+		for i, f := range feats {
+			ps = append(ps, parts[1]+"/"+parts[2]+"&"+f)
+			for _, g := range feats[i+1:] {
+				ps = append(ps, f+"&"+g)
+			}
+		}
+		return ps
+	}
+	pairCount := map[string]int{}
+	for _, b := range out {
+		for _, pr := range pairsOf(b.class) {
+			pairCount[pr]++
+		}
+	}
+	for _, k := range classes {
+		if len(out) >= budget*3/4 {
+			break
+		}
+		if taken[k] {
+			continue
+		}
+		need := false
+		for _, pr := range pairsOf(k) {
+			if pairCount[pr] < 3 {
+				need = true
+			}
+		}
+		if need {
+			out = append(out, byClass[k][0])
+			taken[k] = true
+			for _, pr := range pairsOf(k) {
+				pairCount[pr]++
 			}
 		}
 	}
